@@ -13,9 +13,9 @@
     `_pass_read_annotations`, `_pair_class_virtuals`, the (virtual) part of `_pass_read_annotations2`).
     The effects the statement itself names as crossing elements are separate theorems: the
     shadows/shadowed-by pair (C03_rename_*), a virtual method and its invoker (C03_vfunc_*).  The key
-    set of a virtual method contains its invoker's symbol EVEN WHEN the method has a block of its own:
-    that is the behaviour of the unchanged code and the reason `C03_vfunc_own_block_exclusive_full` is
-    refuted by `C03_vfunc_own_block_counterexample` (reported finding).
+    set of ONE virtual method in the pairing (`vfuncPairKeys`, C03_frame_vfunc_pair) contains the
+    methods' symbols only when the virtual method has no block of its own (C03_vfunc_own_block_exclusive,
+    full since /repo 2bec9c8); `vfuncKeys` is the coarser key set of all virtual methods of a container.
   * C03_rename_symmetric / C03_rename_written: function symbols have pairwise distinct, non-empty GI
     names (`NameEnv`; the attributes carry names, not symbols) and every function carries at most one
     rename-to request (one block per symbol).  The first is about the AST state, the second about the
@@ -114,11 +114,13 @@ theorem C03_writer_tables :
     ∧ Gen.IdentAnn.writerCalls.lookup "_write_alias" = some ["_append_version", "_append_node_generic", "_write_generic"] := by
   decide
 
-/-- the statement-by-statement shape of the two functions the model mirrors as folds
-    (`renameStep`: the if/elif chain of `_apply_annotation_rename_to`; `pairOne`/`accessorStep`/
-    `dropUnchosen`: `_pair_property_accessors`), diagnostics removed, and for every identifier-level
-    attribute of the writer its value and the guard it is appended under (`optAttr` = truthiness,
-    `someAttr` = `is not None`).  Re-extracted from /repo on every run. -/
+/-- the statement-by-statement shape of the functions the model mirrors as folds (`renameStep`: the
+    if/elif chain of `_apply_annotation_rename_to`; `pairOne`/`accessorStep`/`dropUnchosen`:
+    `_pair_property_accessors`; `virtualSlot`/`virtualStep`/`virtualApply`: the (virtual) path of
+    `_pass_read_annotations2`; `ownedIn`: `_get_vfunc_block`; `vfuncPair`: `_pair_class_virtuals`),
+    diagnostics removed, and for every identifier-level attribute of the writer its value and the
+    guard it is appended under (`optAttr` = truthiness, `someAttr` = `is not None`).  Re-extracted
+    from /repo on every run. -/
 theorem C03_source_shape :
     Gen.IdentAnn.skeletons =
       [
@@ -177,6 +179,8 @@ theorem C03_source_shape :
           "                prop.setter = method.name",
           "                continue",
           "            if getter_candidates != {} and method.name in getter_candidates:",
+          "                if getter_candidates[method.name] < 99 and method.get_property not in (None, prop.name):",
+          "                    continue",
           "                found_getter_candidates.append(method.name)",
           "                if method.get_property is None:",
           "                    method.get_property = prop.name",
@@ -191,7 +195,87 @@ theorem C03_source_shape :
           "                continue",
           "        for method in inferred_getters:",
           "            if method.name != prop.getter:",
-          "                method.get_property = None"])]
+          "                method.get_property = None"]),
+        ("_pass_read_annotations2", [
+          "    if isinstance(node, ast.Function):",
+          "        block = self._blocks.get(node.symbol)",
+          "        self._apply_annotation_rename_to(node, chain, block)",
+          "        self._check_instance_parameter(node, block)",
+          "        parent = chain[-1] if chain else None",
+          "        if block and parent:",
+          "            virtual_annotation = block.annotations.get(ANN_VFUNC)",
+          "            if virtual_annotation and (not node.is_method):",
+          "                pass",
+          "            elif virtual_annotation:",
+          "                invoker_name = virtual_annotation[0]",
+          "                for vfunc in parent.virtual_methods:",
+          "                    if vfunc.name == invoker_name:",
+          "                        vfunc.invoker = node.name",
+          "                        if self._get_vfunc_block(parent, vfunc) is None:",
+          "                            self._apply_annotations_callable(vfunc, [parent], block)",
+          "                        break",
+          "    return True"]),
+        ("_get_vfunc_block", [
+          "    if not parent.glib_type_struct:",
+          "        return None",
+          "    class_struct = self._transformer.lookup_typenode(parent.glib_type_struct)",
+          "    if class_struct is None:",
+          "        return None",
+          "    prefix = self._get_annotation_name(class_struct)",
+          "    return self._blocks.get('%s::%s' % (prefix, vfunc.name))"]),
+        ("_pair_class_virtuals", [
+          "    if not node.glib_type_struct:",
+          "        return",
+          "    node_type = node.create_type()",
+          "    class_struct = self._transformer.lookup_typenode(node.glib_type_struct)",
+          "    for field in class_struct.fields:",
+          "        if isinstance(field, ast.Field):",
+          "            field.writable = False",
+          "    for field in class_struct.fields:",
+          "        callback = None",
+          "        if isinstance(field.anonymous_node, ast.Callback):",
+          "            callback = field.anonymous_node",
+          "        elif field.type is not None:",
+          "            callback = self._transformer.lookup_typenode(field.type)",
+          "            if not isinstance(callback, ast.Callback):",
+          "                continue",
+          "        else:",
+          "            continue",
+          "        if len(callback.parameters) == 0:",
+          "            continue",
+          "        firstparam_type = callback.parameters[0].type",
+          "        if firstparam_type != node_type:",
+          "            continue",
+          "        vfunc = ast.VFunction.from_callback(field.name, callback)",
+          "        vfunc.instance_parameter = callback.parameters[0]",
+          "        vfunc.inherit_file_positions(callback)",
+          "        prefix = self._get_annotation_name(class_struct)",
+          "        block = self._blocks.get('%s::%s' % (prefix, vfunc.name))",
+          "        if block is None:",
+          "            vfunc.doc = field.doc",
+          "            vfunc.doc_position = field.doc_position",
+          "        self._apply_annotations_callable(vfunc, [node], block)",
+          "        node.virtual_methods.append(vfunc)",
+          "    for vfunc in node.virtual_methods:",
+          "        for method in node.methods:",
+          "            if method.name != vfunc.name:",
+          "                continue",
+          "            if method.retval.type != vfunc.retval.type:",
+          "                continue",
+          "            if len(method.parameters) != len(vfunc.parameters):",
+          "                continue",
+          "            if self._get_vfunc_block(node, vfunc) is not None:",
+          "                vfunc.invoker = method.name",
+          "                break",
+          "            for i in range(len(method.parameters)):",
+          "                m_type = method.parameters[i].type",
+          "                v_type = vfunc.parameters[i].type",
+          "                if m_type != v_type:",
+          "                    continue",
+          "            vfunc.invoker = method.name",
+          "            block = self._blocks.get(method.symbol)",
+          "            self._apply_annotations_callable(vfunc, [], block)",
+          "            break"])]
     ∧ Gen.IdentAnn.writerConds =
       [
         ("_append_version", ["version=node.version if node.version"]),
@@ -683,32 +767,60 @@ theorem C03_vfunc_no_invoker (methods : List (Method × Option Block)) (v : VSlo
   simp [vfuncPair, applyCallable, hfind, bind, Except.bind]
   rfl
 
-/-- the `(virtual slot)` annotation: the slot named by the annotation gets the function as invoker
-    and the function's block applied on top of whatever it had -/
-theorem C03_vfunc_virtual_annotation (f : Method) (b : Block) (slot : Str) (r : List Str) (e : Elem)
-    (rest : List (Str × Elem)) (h : b.get annVfunc = some (slot :: r)) :
-    virtualStep ((slot, e) :: rest) (f, some b)
-      = (applyCallable false { e with invoker := some f.name } (some b)).map (fun e' => (slot, e') :: rest) := by
-  simp only [virtualStep, h, virtualApply, if_true]
-  cases applyCallable false { e with invoker := some f.name } (some b) <;> rfl
+/-- the `(virtual slot)` annotation of a method: the slot named by the annotation gets the function
+    as invoker; a slot without a block of its own also gets the function's block applied on top of
+    whatever it had, one with a block of its own keeps its state -/
+theorem C03_vfunc_virtual_annotation (owned : Str → Bool) (paired : Method → Bool) (f : Method) (b : Block)
+    (slot : Str) (r : List Str) (e : Elem) (rest : List (Str × Elem)) (h : b.get annVfunc = some (slot :: r))
+    (hm : paired f = true ∨ b.has annMethod = true) :
+    virtualStep owned paired ((slot, e) :: rest) (f, some b)
+      = if owned slot then .ok ((slot, { e with invoker := some f.name }) :: rest)
+        else (applyCallable false { e with invoker := some f.name } (some b)).map (fun e' => (slot, e') :: rest) := by
+  have hv : virtualSlot paired (f, some b) = some (b, slot) := by
+    simp only [virtualSlot, h]
+    rcases hm with hm | hm <;> simp [hm]
+  simp only [virtualStep, hv, virtualApply, if_true]
+  split
+  · rfl
+  · cases applyCallable false { e with invoker := some f.name } (some b) <;> rfl
 
-/-- what the statement's parenthesis suggests for a virtual method WITH a block of its own: the
-    blocks of the methods play no role -/
-def C03_vfunc_own_block_exclusive_full : Prop :=
-  ∀ (own : Block) (fieldDoc : Option Str) (methods methods' : List (Method × Option Block)) (v : VSlot),
-    methods.map (·.1) = methods'.map (·.1) →
-    vfuncPair (some own) fieldDoc methods v = vfuncPair (some own) fieldDoc methods' v
+/-- ... and on a function that is no method (a constructor, a static function, without `(method)`) the
+    annotation is ignored -/
+theorem C03_vfunc_virtual_non_method (owned : Str → Bool) (paired : Method → Bool) (f : Method) (b : Block)
+    (vs : List (Str × Elem)) (hp : paired f = false) (hm : b.has annMethod = false) :
+    virtualStep owned paired vs (f, some b) = .ok vs := by
+  have hv : virtualSlot paired (f, some b) = none := by
+    simp only [virtualSlot]
+    split
+    · simp [hp, hm]
+    · rfl
+  simp only [virtualStep, hv]
 
-/-- witness: FooBarClass::run has its own description; the invoker foo_bar_run's description
-    replaces it -/
-theorem C03_vfunc_own_block_counterexample : ¬ C03_vfunc_own_block_exclusive_full := by
-  intro h
-  have := h { description := some "own".toList } none
-    [({ symbol := "foo_bar_run".toList, name := "run".toList }, some { description := some "invoker".toList })]
-    [({ symbol := "foo_bar_run".toList, name := "run".toList }, none)]
-    { name := "run".toList } rfl
-  revert this
-  decide
+/-- A virtual method WITH a block of its own: the blocks of the methods play no role, it only learns
+    its invoker's name (the parenthesis of the statement read the other way round; a reported finding
+    until /repo 2bec9c8) -/
+theorem C03_vfunc_own_block_exclusive (own : Block) (fieldDoc : Option Str)
+    (methods methods' : List (Method × Option Block)) (v : VSlot) (h : methods.map (·.1) = methods'.map (·.1)) :
+    vfuncPair (some own) fieldDoc methods v = vfuncPair (some own) fieldDoc methods' v :=
+  vfuncPair_own_congr own fieldDoc v h
+
+/-- the key set of ONE virtual method in the pairing: its own `Struct::name` key, and the symbols of
+    the container's methods only when it has no block of its own -/
+def vfuncPairKeys (blocks : Blocks) (n : Node) (sa : Str) (v : VSlot) : List Str :=
+  keyVfunc sa v.name :: (if (blocks (keyVfunc sa v.name)).isSome then [] else n.methods.map (·.symbol))
+
+theorem C03_frame_vfunc_pair (blocks blocks' : Blocks) (n : Node) (sa : Str) (v : VSlot) (fieldDoc : Option Str)
+    (h : ∀ k ∈ vfuncPairKeys blocks n sa v, blocks k = blocks' k) :
+    vfuncPair (blocks (keyVfunc sa v.name)) fieldDoc (withBlocks blocks n.methods) v
+      = vfuncPair (blocks' (keyVfunc sa v.name)) fieldDoc (withBlocks blocks' n.methods) v := by
+  have h0 := h (keyVfunc sa v.name) (by simp [vfuncPairKeys])
+  rw [← h0]
+  cases hb : blocks (keyVfunc sa v.name) with
+  | some own => exact vfuncPair_own_congr own fieldDoc v (by simp [withBlocks, Function.comp_def])
+  | none =>
+    rw [withBlocks_congr (fun f hf => h _ (by
+      simp only [vfuncPairKeys, hb, Option.isSome_none, Bool.false_eq_true, if_false, List.mem_cons, List.mem_map]
+      exact Or.inr ⟨f, hf, rfl⟩))]
 
 /-! ### non-vacuity: concrete instances of the hypotheses and conclusions -/
 
@@ -812,7 +924,23 @@ example : pairOne { name := "active".toList, isBool := true } (none, none)
     = ((none, some "get_active".toList), [(exGet, none, some "active".toList), (exIs, none, some "active".toList)]) := by
   decide
 
--- virtual methods
+-- virtual methods: with a block of its own the slot keeps its documentation and only learns the invoker
+example : vfuncPair (some { description := some "own".toList }) none
+      [({ symbol := "foo_bar_run".toList, name := "run".toList },
+        some { description := some "invoker".toList, anns := [(annSkip, [])] })] { name := "run".toList }
+    = .ok { doc := some "own".toList, invoker := some "run".toList } := by decide
+example : (vfuncPairKeys (setBlock exBlocks "FooBarClass::run".toList (some {})) exBar "FooBarClass".toList { name := "run".toList })
+      = ["FooBarClass::run".toList]
+    ∧ vfuncPairKeys exBlocks exBar "FooBarClass".toList { name := "run".toList }
+      = ["FooBarClass::run".toList, "foo_bar_run".toList, "foo_bar_go".toList] := by decide
+-- (virtual run) on a function that is no method is ignored; on a method it names the invoker
+example : virtualStep (fun _ => false) (fun _ => false) [("run".toList, Elem.fresh)]
+      ({ symbol := "foo_bar_new".toList, name := "new".toList }, some { anns := [(annVfunc, ["run".toList])] })
+    = .ok [("run".toList, Elem.fresh)] := by decide
+example : virtualStep (fun _ => true) (fun _ => true) [("run".toList, Elem.fresh)]
+      ({ symbol := "foo_bar_go".toList, name := "go".toList },
+       some { description := some "Go.".toList, anns := [(annVfunc, ["run".toList])] })
+    = .ok [("run".toList, { invoker := some "go".toList })] := by decide
 example : vfuncsOf exBlocks exBar (fun _ => none)
     = .ok [("run".toList, { doc := some "Runs.".toList, finishFunc := some "run_finish".toList,
                             invoker := some "run".toList })] := by decide
